@@ -39,7 +39,10 @@ struct World {
             w.end_obj(); }
         w.end_arr().key("slots").arr();
         for (int s = 0; s < NS; ++s) { auto &sl = m->slots[s]; w.obj().kbool("used", sl.used).knum("rank", sl.learning).knum("cc", sl.midi_cc).knum("nrpn", sl.midi_nrpn).end_obj(); }
-        w.end_arr().knum("qlen", m->learn_queue_len);
+        w.end_arr().knum("qlen", m->learn_queue_len).key("subs").arr();
+        for (int s = 0; s < NS; ++s) { w.arr(); for (int j = 0; j < PS; ++j) { auto &au = m->slots[s].automations[j];
+            w.obj().kbool("used", au.used).knum("gain", lround(m->getSlotSubGain(s, j))).knum("offset", lround(m->getSlotSubOffset(s, j))).kstr("p", std::string(au.param_path, strnlen(au.param_path, sizeof au.param_path))).end_obj(); } w.end_arr(); }
+        w.end_arr();
     }
     void step(const J &st, JW &ev) {
         const std::string &op = st["op"].s; out.clear(); ev.obj().kstr("op", op);
@@ -48,6 +51,7 @@ struct World {
         else if (op == "clearsub") { m->clearSlotSub((int)st["s"].num() - 1, (int)st["j"].num() - 1); ev.knum("s", st["s"].num()).knum("j", st["j"].num()); }
         else if (op == "map") { int s = (int)st["s"].num() - 1, j = (int)st["j"].num() - 1; m->setSlotSubGain(s, j, (float)st["gain"].num()); m->setSlotSubOffset(s, j, (float)st["offset"].num()); m->updateMapping(s, j);
             ev.knum("s", st["s"].num()).knum("j", st["j"].num()).knum("gain", st["gain"].num()).knum("offset", st["offset"].num()); }
+        else if (op == "path") { m->setSlotSubPath((int)st["s"].num() - 1, (int)st["j"].num() - 1, st["p"].s.c_str()); ev.knum("s", st["s"].num()).knum("j", st["j"].num()).kstr("p", st["p"].s); }
         else if (op == "set") { m->setSlot((int)st["s"].num() - 1, (float)st["v"].num() / 8.0f); ev.knum("s", st["s"].num()).knum("v", st["v"].num()); }
         else if (op == "cc") { int c = (int)st["c"].num(); m->handleMidi(c / 128, c % 128, (int)st["val"].num()); ev.knum("c", c).knum("val", st["val"].num()); }
         else if (op == "nrpn") { m->handleMidi(0, (int)st["type"].num(), (int)st["val"].num()); ev.knum("type", st["type"].num()).knum("val", st["val"].num()); }
@@ -83,7 +87,8 @@ int main(int argc, char **argv) {
                 if (r < 3) { j = mk("create"); addn(j, "s", 1 + rng() % NS); add(j, "p", P[rng() % 5]); addb(j, "learn", rng() % 2); }
                 else if (r == 3) { j = mk("clear"); addn(j, "s", 1 + rng() % NS); }
                 else if (r == 4) { j = mk("clearsub"); addn(j, "s", 1 + rng() % NS); addn(j, "j", 1 + rng() % PS); }
-                else if (r == 5) { int s = (int)(rng() % NS), q = (int)(rng() % PS); if (!wd.m->slots[s].automations[q].used) continue; j = mk("map"); addn(j, "s", s + 1); addn(j, "j", q + 1); addn(j, "gain", G[rng() % 4]); addn(j, "offset", O[rng() % 3]); }
+                else if (r == 5) { int s = (int)(rng() % NS), q = (int)(rng() % PS); j = mk("map"); addn(j, "s", s + 1); addn(j, "j", q + 1); addn(j, "gain", G[rng() % 4]); addn(j, "offset", O[rng() % 3]); }
+                else if (r == 6 && rng() % 2) { j = mk("path"); addn(j, "s", 1 + rng() % NS); addn(j, "j", 1 + rng() % PS); add(j, "p", P[rng() % 5]); }
                 else if (r < 9) { j = mk("set"); addn(j, "s", 1 + rng() % NS); addn(j, "v", (long)(rng() % 11) - 1); }
                 else { j = mk("cc"); addn(j, "c", C[rng() % 7]); addn(j, "val", rng() % 2 ? 127 : 0); }
                 wd.step(j, ev); } });
